@@ -149,6 +149,31 @@ func (c *Client) Subscribe(topic string) (code byte, acked bool) {
 	return
 }
 
+// SubscribeMulti sends one SUBSCRIBE packet with several topics and returns the granted codes.
+func (c *Client) SubscribeMulti(topics ...string) (codes []byte, acked bool) {
+	id := c.id()
+	c.Send(EncSubscribe(id, topics...))
+	var got Packet
+	acked = c.Await(func(p Packet) bool {
+		if p.Type == SUBACK && p.MsgID == id {
+			got = p
+			return true
+		}
+		return false
+	})
+	c.remove(func(p Packet) bool { return p.Type == SUBACK && p.MsgID == id })
+	return got.Codes, acked
+}
+
+// UnsubscribeMulti sends one UNSUBSCRIBE packet with several topics and waits for the UNSUBACK.
+func (c *Client) UnsubscribeMulti(topics ...string) bool {
+	id := c.id()
+	c.Send(EncUnsubscribe(id, topics...))
+	ok := c.Await(func(p Packet) bool { return p.Type == UNSUBACK && p.MsgID == id })
+	c.remove(func(p Packet) bool { return p.Type == UNSUBACK && p.MsgID == id })
+	return ok
+}
+
 // Unsubscribe sends UNSUBSCRIBE and waits for UNSUBACK.
 func (c *Client) Unsubscribe(topic string) bool {
 	id := c.id()
